@@ -20,7 +20,7 @@ Base == [n |-> 1, b |-> 1, e |-> 1, hasval |-> FALSE, tol |-> 1, nval |-> 0, chu
 
 ScheduleConfigs ==
   {[Base EXCEPT !.n = n, !.b = b, !.e = e, !.workers = k] :
-      n \in 1..MaxN, b \in 1..MaxB, e \in 1..MaxE, k \in 1..MaxWorkers}
+      n \in 1..MaxN, b \in 1..MaxB, e \in 0..MaxE, k \in 1..MaxWorkers}
   \cup
   {[Base EXCEPT !.n = n, !.b = 2, !.e = 2, !.workers = 2, !.hasval = TRUE, !.tol = 3, !.nval = 5, !.chunk = 2] : n \in {2, 3}}
 
@@ -28,7 +28,7 @@ ScheduleConfigs ==
 \* i.e. the contract does not depend on it
 EarlyStopConfigs ==
   {[Base EXCEPT !.e = e, !.hasval = hv, !.tol = t, !.nval = 1, !.chunk = 1, !.vals = 1..NVals] @@ [print |-> pr] :
-      e \in 1..MaxE, hv \in BOOLEAN, t \in 1..MaxTol, pr \in {0, 2, 3}}
+      e \in 0..MaxE, hv \in BOOLEAN, t \in 1..MaxTol, pr \in {0, 2, 3}}
 
 \* A layer sequence over the five kinds; a final dense output layer is always appended.
 \* Which positions own a training flag: every dense/conv/deconv layer; a feedback block ("fb": one inner layer,
@@ -43,7 +43,7 @@ FlagsOf(ks) ==
 FlagConfigs ==
   {[Base EXCEPT !.n = 2, !.b = b, !.e = e, !.workers = 2, !.hasval = hv, !.tol = 2, !.nval = 3, !.chunk = 2,
                 !.flagged = FlagsOf(ks)] @@ [kinds |-> ks] :
-      b \in 1..2, e \in 1..2, hv \in BOOLEAN, ks \in Seqs(Kinds, MaxLayers)}
+      b \in 1..2, e \in 0..2, hv \in BOOLEAN, ks \in Seqs(Kinds, MaxLayers)}
 
 MCConfigs == CASE Mode = "schedule"  -> ScheduleConfigs
                [] Mode = "earlystop" -> EarlyStopConfigs
